@@ -403,6 +403,9 @@ func (h *harness) judge(c Case, reply string, count bool) verdict {
 	if gw == "" && c.Mode == 1 && valid {
 		gw = h.parserOracle(c, o)
 	}
+	if gw == "" {
+		gw = disciplineOracle(c, o)
+	}
 	if gw == "" && c.Mode == 1 {
 		c0 := c
 		c0.Mode = 0
@@ -924,6 +927,17 @@ func main() {
 	run.Note("exhaustive parts: dense^≤%d, \"·string^≤%d, \"\\u·hex^4·\", \"\"\"·block^≤%d, \"\"\"·indent^≤%d·\"\"\", number^≤%d, lineterm^≤%d, name-boundary^≤%d, ascii^≤2, a·ascii·b, backslash·ascii in both string kinds, \\u·hexedge^4, {,\",#,\"\"\",\"\\,\"\"\"\\}·srcedge^≤3 (%d texts)",
 		run.Scale(3, 4), run.Scale(5, 6), run.Scale(5, 6), run.Scale(7, 9), run.Scale(5, 6), run.Scale(5, 7), run.Scale(4, 5), b.n)
 
+	// 12b. a quoted string whose decoded value BlockStringValue would change, after one or two block strings
+	// (and other tokens) — for the reading-discipline oracle (discipline.go)
+	for _, blk := range []string{`""""""`, `"""a"""`, "\"\"\"\n  a\n   b\n\"\"\"", `"""\""""""`} {
+		for _, sep := range []string{"", " ", "\n", ",x ", " 1 ", `"q"`, ` """z""" `} {
+			for _, q := range []string{`"\n"`, `"\r"`, `"a\r\nb"`, `"\n  a\n  b\n"`, `" \n\n x \n "`, `"\t\n a"`, `"  a\n b"`, `"\u000a \u000d"`, `"a"`, `""`} {
+				for _, tail := range []string{"", " " + q, "\n" + blk + q} {
+					b.add([]byte(blk+sep+q+tail), mixed(b.n), "string-after-block")
+				}
+			}
+		}
+	}
 	// 13. parser route: valid documents with lexical junk between any two tokens and after the last one (parse.go)
 	h.runJunkDocuments(b)
 	// 13b. layouts: lexeme sequences under two random layouts each (layout.go)
